@@ -222,8 +222,9 @@ def run(ctx):
           site=w.where(0), detail=r1)
     # the single-byte rule: the no-prefix path is taken iff atom_0 < 0x80
     sb = [show_norm(compare_norm(w.switch_cond(b))) for b in w.reachable_blocks() if w.term(b)["k"] == "switch"
-          and "atom_0" in show_norm(compare_norm(w.switch_cond(b)) or ({}, 0, ""))]
-    ck.ob("R15a", f"{WRITER}|single-byte", sb == ["-atom_0 +128 >0"], "the prefix is omitted iff the byte is < 0x80",
+          and "$2" in w.unparam(show_norm(compare_norm(w.switch_cond(b)) or ({}, 0, "")))]
+    sb = w.unparam(sb)      # (f $1, atom_0 $2, size $3)
+    ck.ob("R15a", f"{WRITER}|single-byte", sb == ["-$2 +128 >0"], "the prefix is omitted iff the byte is < 0x80",
           site=w.where(0), detail=sb)
 
     # ---- length functions
@@ -257,16 +258,20 @@ def run(ctx):
     # single-byte rule in serialized_length_atom
     f = cr.fn(LEN_ATOM)
     sb = sorted(show_norm(compare_norm(f.switch_cond(b))) for b in f.reachable_blocks() if f.term(b)["k"] == "switch"
-                and "buf[" in show_norm(compare_norm(f.switch_cond(b)) or ({}, 0, "")))
-    ck.ob("R15b", f"{LEN_ATOM}|single-byte", sb == ["-buf[0] +128 >0"], "one-byte atoms < 0x80 have length 1", site=f.where(0), detail=sb)
+                and "$1[" in f.unparam(show_norm(compare_norm(f.switch_cond(b)) or ({}, 0, ""))))
+    sb = f.unparam(sb)
+    ck.ob("R15b", f"{LEN_ATOM}|single-byte", sb == ["-$1[0] +128 >0"], "one-byte atoms < 0x80 have length 1", site=f.where(0), detail=sb)
 
     # ---- canonical check
     c = cr.fn(CANON)
     ck.analysed(c)
     mins = {}
-    mv = c.local_by_name("min_value")
-    if not mv:
-        raise mir.AnchorMissing("is_canonical_atom: local `min_value` (row minimum) not found")
+    # the row-minimum local, by role: the only local assigned several times, always a constant
+    mv = [l for l in range(c.nargs + 1, len(c.locals))
+          if len([d_ for d_ in c.defs(l) if d_[1] != "T"]) >= 4
+          and all(d_[1] != "T" and mir.const_eval(c.expr_rvalue(c.def_rvalue(d_), deep=False)) is not None for d_ in c.defs(l))]
+    if len(mv) != 1:
+        raise mir.AnchorMissing(f"is_canonical_atom: the row-minimum local (assigned one constant per prefix length) not found uniquely: {mv}")
     defs = c.defs(mv[0])
     for b in c.reachable_blocks():
         t = c.term(b)
@@ -304,8 +309,9 @@ def run(ctx):
     ck.ob("R15c", f"{CANON}|verdict", okv, "the verdict compares the decoded length with the row minimum using >=", site=c.where(0), detail=verdict)
     # single byte rule
     sbc = sorted(show_norm(compare_norm(c.switch_cond(b))) for b in c.reachable_blocks() if c.term(b)["k"] == "switch"
-                 and compare_norm(c.switch_cond(b)) and "value[" in show_norm(compare_norm(c.switch_cond(b))))
-    ck.ob("R15c", f"{CANON}|single-byte", sbc == ["-value[0] +128 >0"], "a 1-byte atom with a prefix is non-canonical iff the byte is < 0x80",
+                 and compare_norm(c.switch_cond(b)) and "%[u8; 1][" in c.unname(show_norm(compare_norm(c.switch_cond(b)))))
+    sbc = c.unname(sbc)     # the one-byte buffer the atom's only byte was read into
+    ck.ob("R15c", f"{CANON}|single-byte", sbc == ["-%[u8; 1][0] +128 >0"], "a 1-byte atom with a prefix is non-canonical iff the byte is < 0x80",
           site=c.where(0), detail=sbc)
 
     # ---- decoder caps (by role, see decoder_caps)
